@@ -1783,6 +1783,11 @@ int ov_pcm_seek(OggVorbis_File *vf,ogg_int64_t pos){
       ogg_int64_t target=(pos-vf->pcm_offset)>>hs;
       long samples=vorbis_synthesis_pcmout(&vf->vd,NULL);
 
+      /* at half rate a link that starts on an odd sample puts every
+         reachable position on odd offsets; less than one output sample
+         short of pos is as close as we can get */
+      if(target<=0)break;
+
       if(samples>target)samples=target;
       vorbis_synthesis_read(&vf->vd,samples);
       vf->pcm_offset+=samples<<hs;
